@@ -52,18 +52,19 @@ int main(void)
 
 int main(int argc, char **argv)
 {
-	unsigned long done = 0, skipped = 0, cmin = ~0ul, cmax = 0;
+	unsigned long done = 0, skipped = 0, cmin = ~0ul, cmax = 0, dmax = 0;
 	uint64_t seed = argc > 1 ? strtoull(argv[1], 0, 0) : 1;
 	for (unsigned long it = 0; done < C08_TV_N && it < 200ul * C08_TV_N; it++) {
 		size_t l0;
 		uint64_t s0 = seed * 0x9E3779B97F4A7C15ull + it * 0xD1B54A32D192ED03ull + 1, s1 = it + 0x1234567;
 		if (setjmp(c08_skip)) { skipped++; continue; }
 		c08_rng_s[0] = s0; c08_rng_s[1] = s1;
-		c08_which = 0; c08_olen = 0; c08_cnt = 0;
+		c08_which = 0; c08_olen = 0; c08_cnt = 0; c08_dcnt = 0;
 		c08_public(); c08_secret(); c08_call(); c08_out();
 		l0 = c08_olen;
 		if (c08_cnt < cmin) cmin = c08_cnt;
 		if (c08_cnt > cmax) cmax = c08_cnt;
+		if (c08_dcnt > dmax) dmax = c08_dcnt;
 		c08_rng_s[0] = s0; c08_rng_s[1] = s1;
 		c08_which = 1; c08_olen = 0;
 		c08_public(); c08_secret(); c08_call_real(); c08_out();
@@ -76,7 +77,7 @@ int main(int argc, char **argv)
 		}
 		done++;
 	}
-	printf("TV-OK matched=%lu skipped=%lu outbytes=%lu obs_min=%lu obs_max=%lu\n", done, skipped, (unsigned long)c08_olen, cmin, cmax);
+	printf("TV-OK matched=%lu skipped=%lu outbytes=%lu obs_min=%lu obs_max=%lu div_max=%lu\n", done, skipped, (unsigned long)c08_olen, cmin, cmax, dmax);
 	return done ? 0 : 2;
 }
 #endif
